@@ -90,6 +90,8 @@ def random_case(rng, max_states=5, max_syms=3, kinds=("enfa", "nfa", "dfa"), vcs
             else:
                 edits = [["rm_f", rng.choice(case["final"])], ["add_f", rng.randrange(n)]]
         case["edits"] = edits
+    if rng.random() < 0.25:
+        case["eps_form"] = rng.choice([1, 3])            # Symbol("epsilon") is not an accepted spelling for automata
     r = rng.random()
     if r < 0.15:
         case["form"] = "ctor"          # states / symbols / start / finals given to the constructor
@@ -196,6 +198,10 @@ def sval(case, i):
 
 def aval(case, j):
     if j == EPSID:
+        f = case.get("eps_form", 0)
+        if f:
+            from pyformlang.finite_automaton import Epsilon, Symbol
+            return [None, Epsilon(), Symbol("epsilon"), "\u025b"][f]     # object, Symbol with the text, the letter
         return "epsilon"
     if case["vc"] == "inject" and not case.get("token"):
         sp = case.get("sperm")
@@ -235,8 +241,11 @@ def build(case):
                                                      NondeterministicTransitionFunction)
             tf = TransitionFunction() if case["kind"] == "dfa" else NondeterministicTransitionFunction()
             try:
-                for p, a, q in tlist:
-                    tf.add_transition(State(p), Epsilon() if a == "epsilon" else Symbol(a), State(q))
+                for x in ops:
+                    if x[0] == "t":
+                        tf.add_transition(State(sval(case, x[1])),
+                                          Epsilon() if x[2] == EPSID else Symbol(aval(case, x[2])),
+                                          State(sval(case, x[3])))
                 tlist = []
             except Exception:      # noqa  (a refused transition: fall back to the mutators)
                 tf = None
